@@ -234,6 +234,41 @@ def c06_require(agg):
     return need
 
 
+# ------------------------------------------------------------------ C07
+
+def c07_env(b):
+    e = {}
+    sb = [8192, None, 16384][b % 3]
+    if sb:
+        e["IPCMON_SNDBUF"] = sb
+    if b % 4 == 1:
+        e["IPCMON_DELAY"] = "%d:%d:%d" % (b + 11, 120, 300)
+    if b % 4 == 3:
+        e["IPCMON_WIDEN"] = "%d:%d:0" % (4, 300)
+    return e
+
+
+def c07_plan(tier, seed):
+    q = tier == "quick"
+    out = jobs("os-debug", "c07", 12 if q else 32, c07_env, {"cases": 14 if q else 200}, timeout=1800)
+    g = jobs("os-debug", "c07", 14 if q else 34, c07_env, {"cases": 10 if q else 100, "global": 1}, timeout=1800)
+    out += g[-2:]
+    out += jobs("inproc-debug", "c07", 2 if q else 6, None, {"cases": 14 if q else 200}, timeout=1800)
+    return out
+
+
+def c07_require(agg):
+    st = agg["stats"]
+    need = []
+    if st.get("callback_routes", 0) < 100 or st.get("crossbeam_routes", 0) < 100:
+        need.append("fewer than 100 callback or crossbeam routes")
+    if st.get("prequeued_messages", 0) < 100:
+        need.append("fewer than 100 messages queued before registration")
+    if st.get("max_routes_in_one_router", 0) < 24:
+        need.append("no router with >=24 routes")
+    return need
+
+
 # ------------------------------------------------------------------ C19
 
 def c19_plan(tier, seed):
@@ -287,6 +322,20 @@ NOTES = ("Runtime monitoring and sanitizers. ./check <id> rebuilds the harness (
 NOT_APPLICABLE = {}
 
 PROPS = {
+    "C07": {
+        "plan": c07_plan,
+        "require": c07_require,
+        "level": "exploration",
+        "level_text": "Exploration: fresh routers (and the global ROUTER in dedicated processes) get 1..32 routes of all three kinds registered from 1..8 threads while "
+                      "0..50 messages per route are queued before registration or in flight and senders drop at seeded points; every callback logs (route, tag, seq, stamp) "
+                      "and owns a drop guard; the log must be exactly 0..n-1 per route with matching tags, the guard must fire once, after the last delivery and not "
+                      "before the last sender's drop began; crossbeam routes must yield the same sequence and then disconnect.",
+        "level_note": "Completion is awaited with a 20 s grace after every sender was dropped and every helper joined; 'never dropped' is only declared when all "
+                      "other threads of the process are asleep without CPU use (nothing can happen any more). Proxies are leaked so that C17's stop path does not interfere.",
+        "technique": "runtime monitoring: callback event log with drop guards and stamps, offline per-route sequence/tag/guard checker, delay injection around the proxy's sends",
+        "rule": "case = one router scenario; distinct = hash of the global order of deliver/drop events by route together with the route count; non-trivial = at least two routes",
+        "assumptions": ["callbacks run on the router thread only, so the event log order is the delivery order"],
+    },
     "C06": {
         "plan": c06_plan,
         "require": c06_require,
